@@ -18,8 +18,8 @@ RULE = ("real threads (2..3 submitters x 3..4 submissions with sources owned by 
 
 
 def generate(rnd, tier):
-    n = 250 if tier == "quick" else 4000
-    return [{"op": "threads", "seed": rnd.randrange(10 ** 9), "nsub": rnd.choice([2, 2, 3]), "per": rnd.choice([3, 3, 4]), "policy": rnd.choice(["random", "random", "pct"])} for _ in range(n)]
+    n = 1500 if tier == "quick" else 20000
+    return [{"op": "threads", "seed": rnd.randrange(10 ** 9), "nsub": rnd.choice([2, 2, 3]), "per": rnd.choice([3, 4, 5]), "policy": rnd.choice(["random", "random", "pct"])} for _ in range(n)]
 
 
 def run_impl(case):
@@ -68,7 +68,14 @@ def monitor(case, obs):
             for sid in list(open_during):
                 if sid in cur.values(): open_during[sid].discard(e[2])
         if k == "add_source": sources.setdefault(e[2], set()).add(e[3])
-        if k == "lv_iter" and t in cur: lock_levels[cur[t]] = list(e[2]); held[cur[t]] = {q: set(sources.get(q, ())) for q in e[2]}
+        if k == "lv_iter" and t in cur:
+            if list(e[2]) != levels: return "the level list seen by submitter %d (%r) is not the list of open levels (%r)" % (t, e[2], levels)
+            lock_levels[cur[t]] = list(e[2]); held[cur[t]] = []
+        if k == "contains" and t in cur and cur[t] in held:
+            # the answer of a level is checked against the sources registered with it so far (answers are given under that level's own lock)
+            truth = e[3] in sources.get(e[2], set()) if e[3] is not None else False
+            if bool(e[4]) != truth: return "level %d answered %r for source %r but its registered sources are %r" % (e[2], e[4], e[3], sorted(sources.get(e[2], ())))
+            held[cur[t]].append((e[2], bool(e[4])))
         if k == "put":
             sid = e[3]
             if sid in placed: return "signal %d was put into a queue twice" % sid
@@ -77,15 +84,17 @@ def monitor(case, obs):
     for sid, s in subs.items():
         if any(e[1] == "submitted" and e[2] == sid for e in evs) and sid not in placed:
             return "the submission of signal %d completed but it was put into no queue" % sid
-    # routing: source owned by a level that stays open during the submission -> innermost such level as of the lock
+    # routing: the levels are asked innermost first; the signal goes into the first one that owns its source (as of the moment it was asked, under the lock);
+    # a level that stays open cannot be skipped
     for sid, (q, order, i) in placed.items():
-        if sid not in subs: continue
-        src = subs[sid][1]
-        if src is None or sid not in lock_levels: continue
-        owners = [l for l in reversed(lock_levels[sid]) if src in held[sid].get(l, ())]
-        stay = [l for l in owners if l in open_during.get(sid, ())]
-        if owners and owners[0] in open_during.get(sid, ()) and q != owners[0]:
-            return "signal %d (source %r) was put into level %d; the innermost level owning its source when the lock was held is %d" % (sid, src, q, owners[0])
+        if sid not in subs or sid not in lock_levels: continue
+        asked = held.get(sid, [])
+        exp_order = list(reversed(lock_levels[sid]))
+        if [l for l, _ in asked] != exp_order[:len(asked)]: return "signal %d: the levels were asked in the order %r, innermost first is %r" % (sid, [l for l, _ in asked], exp_order)
+        owner = next((l for l, r in asked if r), None)
+        if owner is not None and q != owner:
+            return "signal %d (source %r) was put into level %d; the innermost level that owns its source is %d" % (sid, subs[sid][1], q, owner)
+        if owner is None and len(asked) != len(exp_order): return "signal %d: not every open level was asked (%r of %r)" % (sid, asked, exp_order)
     # dispatched or pending or in a level closed later
     taken = set(disp)
     for sid, (q, order, i) in placed.items():
